@@ -1168,7 +1168,7 @@ pub fn cow(
         tk::reset_range(id0);
         return Err((
             Viol {
-                props: "C08,C01",
+                props: "C08,C01,C02",
                 oracle: "live",
                 msg: format!("[cow] {} tracked values alive at the end", n),
             },
@@ -1312,7 +1312,7 @@ pub fn unwraprace(seed: u64, nthreads: usize, st: &mut CStats) -> Result<(), (Vi
             tk::reset_range(id0);
             return Err((
                 Viol {
-                    props: "C09",
+                    props: "C09,C02",
                     oracle: "unwrap-schedule",
                     msg: "the value was neither handed out nor destroyed".into(),
                 },
@@ -1324,7 +1324,7 @@ pub fn unwraprace(seed: u64, nthreads: usize, st: &mut CStats) -> Result<(), (Vi
             tk::reset_range(id0);
             return Err((
                 Viol {
-                    props: "C09,C01",
+                    props: "C09,C01,C02",
                     oracle: "live",
                     msg: format!("[unwraprace] {} tracked values alive at the end", n),
                 },
